@@ -815,6 +815,13 @@ func normalizeValue(
 		d := v.Interface().(time.Duration)
 		return newString(ctx, opts.meta, d.String()), nil
 	case tRegexp:
+		if !v.CanAddr() {
+			// held by value in a map, or in a struct that was passed by value
+			// or taken out of an interface: read it from an addressable copy
+			tmp := reflect.New(tRegexp).Elem()
+			tmp.Set(v)
+			v = tmp
+		}
 		r := v.Addr().Interface().(*regexp.Regexp)
 		return newString(ctx, opts.meta, r.String()), nil
 	}
